@@ -250,21 +250,28 @@ def judge_orient(rc, r1, r2, kept_rec, lookups, U, x, mode, stats, perturb=None,
     cand = lk["cand"] if lk else []
     classes = lk["classes"] if lk else []
     scale = max(1.0, float(np.abs(rc.BI).max()))
-    # predicted orientation of every candidate kept pair (Busing-Levy construction, harness arithmetic)
-    pred = {}
-    for k in cand:
-        a, b = keptpairs[k - 1]
-        pred[k] = ubi_from_pair(rc.B, rc.BI, np.array(a, float), np.array(b, float), g1, g2)
-    # ---- conformance: UBIlist = one orientation per class of the candidates
+    # predicted orientation of every candidate kept pair (Busing-Levy construction, harness arithmetic):
+    # UBI_k = B^-1 . Tc_k . Tg^T ; the crystal side B^-1.Tc_k is formed once per kept pair
+    if "_BT" not in kept_rec:
+        kept_rec["_BT"] = np.array([np.dot(rc.BI, triad(np.dot(rc.B, np.array(a, float)), np.dot(rc.B, np.array(b, float))))
+                                    for a, b in keptpairs]).reshape(-1, 3, 3)
     hit = []
+    if lk and cand:
+        Tg = triad(g1, g2)
+        idx = np.array(cand, int) - 1
+        pred = np.matmul(kept_rec["_BT"][idx], Tg.T)
+        cls_of = {}
+        for i, c in enumerate(classes):
+            for k in c:
+                cls_of[k] = i
+    # ---- conformance: UBIlist = one orientation per class of the candidates
     for u in (ubis if lk else []):
-        ks = [k for k in cand if np.abs(u - pred[k]).max() <= REL * scale + 1e-12]
-        if not ks:
+        ks = np.nonzero(np.abs(pred - u).max(axis=(1, 2)) <= REL * scale + 1e-12)[0] if cand else []
+        if len(ks) == 0:
             probs.append(("conformance", "UBIlist member is not the Busing-Levy orientation of any candidate pair"))
             hit.append(None)
             continue
-        cl = [i for i, c in enumerate(classes) if ks[0] in c]
-        hit.append(cl[0] if cl else None)
+        hit.append(cls_of.get(cand[int(ks[0])]))
     if not lk:
         pass
     elif mode == 0:
@@ -282,36 +289,46 @@ def judge_orient(rc, r1, r2, kept_rec, lookups, U, x, mode, stats, perturb=None,
             stats.dedup += 1
         if any(kept_rec["keptn"][k - 1] != kept_rec["nk"][x] for k in cand):
             stats.crossblock += 1
-    # ---- property
-    # (a) right handed, the cell's metric
-    for u in ubis:
-        if np.linalg.det(u) <= 0:
-            probs.append(("property", "left handed UBI (det %g)" % np.linalg.det(u)))
-        if not close(np.dot(u, u.T), rc.g, scale=float(np.abs(rc.g).max())):
-            probs.append(("property", "UBI.UBI^T is not the cell's metric tensor"))
-    # (a') candidates made from a pair of the observed angle give integer hkl to both reflections
-    if mode in (0, 2):
-        for u in ubis:
-            for g in (g1, g2):
-                hc = np.dot(u, g)
+    # ---- property (batched over the members of UBIlist)
+    found = False
+    if ubis:
+        A = np.array(ubis)                                   # (n,3,3)
+        finite = bool(np.all(np.isfinite(A)))
+        if finite:
+            # (a) right handed, the cell's metric
+            dets = np.linalg.det(A)
+            if np.any(dets <= 0):
+                probs.append(("property", "left handed UBI (det %g)" % float(dets.min())))
+            gscale = float(np.abs(rc.g).max())
+            if np.abs(np.matmul(A, A.transpose(0, 2, 1)) - rc.g).max() > REL * gscale + 1e-12:
+                probs.append(("property", "UBI.UBI^T is not the cell's metric tensor"))
+            # (a') candidates made from a pair of the observed angle give integer hkl to both reflections
+            if mode in (0, 2):
+                hc = np.concatenate([np.matmul(A, g1), np.matmul(A, g2)])
                 if np.abs(hc - np.round(hc)).max() > TOL_INT:
                     probs.append(("property", "a candidate does not give integer hkl to the two reflections it was made from"))
-    # (b) no two candidates describe the same lattice
-    for i in range(len(ubis)):
-        for j in range(i):
-            m = np.dot(ubis[i], np.linalg.inv(ubis[j]))
-            if np.abs(m - np.round(m)).max() < TOL_INT:
-                probs.append(("property", "two members of UBIlist describe the same lattice"))
-    # (c) some candidate equals the true UBI up to a lattice symmetry: M = UBI.UB in Aut+(G)
-    found = False
-    for u in ubis:
-        m = np.dot(u, UB)
-        mr = np.round(m)
-        if np.abs(m - mr).max() < TOL_INT and tuple(tuple(int(v) for v in row) for row in mr) in rc.aut:
-            found = True
+            # (b) no two candidates describe the same lattice: UBI_i . UBI_j^-1 integer
+            if len(ubis) > 1:
+                P = np.matmul(A[:, None], np.linalg.inv(A)[None, :])          # (n,n,3,3)
+                dev = np.abs(P - np.round(P)).max(axis=(2, 3))
+                dev[np.arange(len(ubis)), np.arange(len(ubis))] = 1.0
+                if dev.min() < TOL_INT:
+                    probs.append(("property", "two members of UBIlist describe the same lattice"))
+            # (c) some candidate equals the true UBI up to a lattice symmetry: M = UBI.UB in Aut+(G)
+            Ms = np.matmul(A, UB)
+            Mr = np.round(Ms)
+            okint = np.abs(Ms - Mr).max(axis=(1, 2)) < TOL_INT
+            for i in np.nonzero(okint)[0]:
+                if tuple(tuple(int(v) for v in row) for row in Mr[i]) in rc.aut:
+                    found = True
     if any(not np.all(np.isfinite(u)) for u in ubis):
         probs.append(("property", "UBIlist contains a non-finite matrix"))
-    nblock = len([k for k in range(1, len(keptpairs) + 1) if kept_rec["keptn"][k - 1] == kept_rec["nk"][x]])
+    if "_nblock" not in kept_rec:
+        cnt = {}
+        for n in kept_rec["keptn"]:
+            cnt[n] = cnt.get(n, 0) + 1
+        kept_rec["_nblock"] = cnt
+    nblock = kept_rec["_nblock"].get(kept_rec["nk"][x], 0)
     if mode == 0 and nblock > 1:
         # several inequivalent pairs subtend this angle: a single returned candidate cannot be required
         # to be the right one (the indexer re-calls with crange); conformance above still applies
